@@ -120,7 +120,7 @@ def popPending (pending : List Pend) (leaves : List String) : List Pend × List 
 
 /-- `chk_hybrid_dep(effect)` with extra dependency carriers (bare temporaries of expression statements). -/
 def chk (st : HSt) (e : ILEffect) (bare : List String) (after : Bool := false) : ILEffect × HSt :=
-  let (popped, rest) := popPending st.pending (tmpsOfEffect e ++ bare)
+  let (popped, rest) := popPending st.pending (bare ++ tmpsOfEffect e)
   if popped.isEmpty then (e, st)
   else
     let deps := popped.map Pend.render
